@@ -564,6 +564,9 @@ class Translator:
             body = [YieldToReturn().visit(copy_node(s)) for s in body]
             has_raise = False if sp.selfconst else has_raise
         end = None
+        has_return = any(isinstance(n, ast.Return) for s_ in body for n in ast.walk(s_))
+        if has_raise and not has_return and not sp.self_out and not is_gen:
+            end = lambda e: "Some tt"
         if sp.self_out:
             def end(e):
                 parts = [e["self." + a][0] for a in sp.self_out]
@@ -582,6 +585,8 @@ class Translator:
         rt = coq_type(rett) if rett else None
         if rt and has_raise:
             rt = "option " + rt
+        if has_raise and not has_return and not sp.self_out and not is_gen:
+            rt = "option unit"
         header = "Definition %s %s%s :=\n  %s." % (sp.name, " ".join(binders), (" : " + rt) if rt else "", txt)
         self.known[sp.func] = (
             sp.name, [t for t in sp.params.values()], rett if not has_raise else ("OPT", rett),
